@@ -6,7 +6,7 @@ mkdir -p work/sweep
 for p in "$@"; do
   cp evidence/$p.json work/sweep/$p.evidence.before.json 2>/dev/null
   start=$(date +%s)
-  VERIF_WORK=/verif/work/lead_sweep_t timeout 7200 ./check $p --tier thorough --seed $seed > work/sweep/${p}_t$seed.log 2>&1
+  VERIF_WORK=${SWEEP_WORK:-/verif/work/lead_sweep_t} timeout 7200 ./check $p --tier thorough --seed $seed > work/sweep/${p}_t$seed.log 2>&1
   rc=$?
   cp evidence/$p.json work/sweep/$p.evidence.thorough.json 2>/dev/null
   cp work/sweep/$p.evidence.before.json evidence/$p.json 2>/dev/null
